@@ -95,28 +95,21 @@ def run(db, chk) -> None:
     if len(loops) == 1 and len(loops[0].body) == 1 and isinstance(loops[0].body[0], ast.If):
         lp, iff = loops[0], loops[0].body[0]
         v = H.name_id(lp.target)
-        guard = ast.unparse(iff.test).replace(" ", "")
-        body = iff.body
-        txt = [ast.unparse(s).replace(" ", "") for s in body]
-        det = {"guard": guard, "body": txt}
-        try:
-            i_id = next(i for i, s in enumerate(txt) if s.endswith("=len(self.sym_table)"))
-            idvar = txt[i_id].split("=")[0]
-            i_app = txt.index(f"self.sym_table.append({v})")
-            i_idx = txt.index(f"self.sym_index[{v}]={idvar}")
-            ok = guard in (f"{v}notinself.sym_index",) and i_id < i_app and not iff.orelse and len(body) == 3
-        except (StopIteration, ValueError):
-            ok = False
+        det = {"guard": ast.unparse(iff.test), "body": [ast.unparse(s) for s in iff.body]}
+        g = H.match(f"{v} not in self.sym_index", iff.test)
+        r = H.match_seq(["$i = len(self.sym_table)", f"self.sym_table.append({v})", f"self.sym_index[{v}] = $i"], iff.body) if g is not None else None
+        ok = r is not None and not iff.orelse and len(iff.body) == 3
     chk.ob("C11.R1-append-only", "add_symbols: for each symbol not yet in sym_index: id = len(sym_table) taken BEFORE the append, then append and index it - nothing else", ok, where, found=det,
            accepted={"guard": "s not in self.sym_index", "body": ["idx=len(self.sym_table)", "self.sym_table.append(s)", "self.sym_index[s]=idx"]},
            why="taking the id after the append, or storing outside the guard, breaks the bijection or renumbers existing symbols")
     cl = st.func("TraceSymbolTable.clone")
-    ctx = ast.unparse(cl).replace(" ", "")
-    chk.ob("C11.R1-append-only", "clone copies both containers (no sharing with the source table)", "tst.sym_table=symbol_table.sym_table.copy()" in ctx and "tst.sym_index=symbol_table.sym_index.copy()" in ctx,
+    okcl = H.match_seq(["$t = TraceSymbolTable()", "$t.sym_table = symbol_table.sym_table.copy()", "$t.sym_index = symbol_table.sym_index.copy()", "return $t"], cl.body) is not None or \
+        H.match_seq(["$t = TraceSymbolTable()", "$t.sym_index = symbol_table.sym_index.copy()", "$t.sym_table = symbol_table.sym_table.copy()", "return $t"], cl.body) is not None
+    chk.ob("C11.R1-append-only", "clone copies both containers (no sharing with the source table)", okcl,
            st.loc(cl), found=[ast.unparse(s) for s in cl.body if isinstance(s, ast.Assign)], accepted=["sym_table.copy()", "sym_index.copy()"])
     cr = st.func("TraceSymbolTable.create_from_symbol_id_map")
-    ctx = ast.unparse(cr).replace(" ", "")
-    chk.ob("C11.R1-append-only", "create_from_symbol_id_map derives sym_index from an enumeration of the sym_table it built", "tst.sym_index.update({s:ifori,sinenumerate(tst.sym_table)})" in ctx, st.loc(cr),
+    okcr = bool(H.find_match("$t.sym_index.update({$s: $i for $i, $s in enumerate($t.sym_table)})", cr)) or bool(H.find_match("$t.sym_index = {$s: $i for $i, $s in enumerate($t.sym_table)}", cr))
+    chk.ob("C11.R1-append-only", "create_from_symbol_id_map derives sym_index from an enumeration of the sym_table it built", okcr, st.loc(cr),
            found=[ast.unparse(s)[:90] for s in cr.body if "sym_index" in ast.unparse(s)], accepted="tst.sym_index.update({s: i for i, s in enumerate(tst.sym_table)})")
     chk.floor("C11.R1-append-only", 8)
 
@@ -125,53 +118,67 @@ def run(db, chk) -> None:
     for q in ("Trace.parse_single_rank", "Trace.parse_multiple_ranks"):
         f = tm.func(q)
         where = tm.loc(f)
-        stores = [n for n in ast.walk(f) if isinstance(n, ast.Assign) and isinstance(n.targets[0], ast.Subscript) and ast.unparse(n.targets[0]).replace(" ", "") == "self.traces[rank][col]"]
+        stores = [n for n in ast.walk(f) if isinstance(n, ast.Assign) and H.match("self.traces[rank][$c]", n.targets[0]) is not None]
         ok = len(stores) == 1
         det = [ast.unparse(s)[:160] for s in stores]
         narrowing = [ast.unparse(c)[:100] for s in stores for c in ast.walk(s.value) if isinstance(c, ast.Call) and isinstance(c.func, ast.Attribute) and c.func.attr == "astype"]
-        if ok:
-            v = stores[0].value
-            lam = [x for x in ast.walk(v) if isinstance(x, ast.Lambda)]
-            okv = isinstance(v, ast.Call) and isinstance(v.func, ast.Attribute) and v.func.attr in ("apply", "map") and ast.unparse(v.func.value).replace(" ", "") == "self.traces[rank][col]" \
-                and len(lam) == 1 and len(lam[0].args.args) == 1 and ast.unparse(lam[0].body).replace(" ", "") == f"global_map[local_table[{lam[0].args.args[0].arg}]]"
-            ok = okv
+        gm_name = next((H.name_id(t) for t, v, s_ in H.assignments(f) if H.match("self.symbol_table.get_sym_id_map()", v) is not None), None)
+        lt_name = next((H.name_id(t) for t, v, s_ in H.assignments(f) if isinstance(v, ast.Call) and isinstance(v.func, ast.Attribute) and v.func.attr == "get_sym_table" and "local" in ast.unparse(v.func.value)), None)
+        if ok and gm_name and lt_name:
+            ok = any(H.match(f"self.traces[rank][$c] = self.traces[rank][$c].{meth}(lambda $i: {gm_name}[{lt_name}[$i]])", stores[0]) is not None for meth in ("apply", "map"))
+        else:
+            ok = False
         verdict = ok if ok or narrowing or not stores else None
         chk.ob("C11.R2-re-encoding", f"{q}: new code of a cell = global_map[local_table[old code]] applied to the whole column, without a cast back to the old (narrow) dtype", verdict if not narrowing else False, where,
                found=det + ([f"narrowing cast: {x}" for x in narrowing]), accepted="self.traces[rank][col] = self.traces[rank][col].apply(lambda idx: global_map[local_table[idx]])",
                why="global ids can exceed the local column's small integer dtype: a cast back wraps silently and rows decode to other strings")
         # local_table comes from the same rank's local table; global_map read after all add_symbols
-        lt = [(ast.unparse(v), s) for t, v, s in H.assignments(f) if H.name_id(t) == "local_table"]
-        gm = [(ast.unparse(v), s) for t, v, s in H.assignments(f) if H.name_id(t) == "global_map"]
+        lt = [(ast.unparse(v), s) for t, v, s in H.assignments(f) if H.name_id(t) == lt_name]
+        gm = [(ast.unparse(v), s) for t, v, s in H.assignments(f) if H.name_id(t) == gm_name]
         adds = [c for c in ast.walk(f) if isinstance(c, ast.Call) and isinstance(c.func, ast.Attribute) and c.func.attr == "add_symbols"]
-        ok_lt = len(lt) == 1 and lt[0][0] in ("local_symbol_tables[rank].get_sym_table()", "local_symbol_table.get_sym_table()")
+        loc_single = next((H.name_id(t.elts[2]) for t, v, s_ in H.assignments(f) if isinstance(t, ast.Tuple) and len(t.elts) == 3 and isinstance(v, ast.Call) and H.name_id(v.func) == "parse_trace_file"), None)
+        loc_multi = next((ast.unparse(t.value) for t, v, s_ in H.assignments(f) if isinstance(t, ast.Subscript) and H.name_id(t.slice) == "rank" and "result" in ast.unparse(v) and "[2]" in ast.unparse(v)), "local_symbol_tables")
+        acc_lt = {f"{loc_multi}[rank].get_sym_table()"} | ({f"{loc_single}.get_sym_table()"} if loc_single else set())
+        ok_lt = len(lt) == 1 and lt[0][0] in acc_lt
         ok_gm = len(gm) == 1 and gm[0][0] == "self.symbol_table.get_sym_id_map()" and adds and all(a.lineno < gm[0][1].lineno for a in adds)
         chk.ob("C11.R2-re-encoding", f"{q}: the local table is the SAME rank's local table", ok_lt, where, found=[x[0] for x in lt], accepted="local_symbol_tables[rank].get_sym_table()")
         chk.ob("C11.R2-re-encoding", f"{q}: the global map is read after every rank's symbols were added to the shared table", bool(ok_gm), where, found=[x[0] for x in gm] + [a.lineno for a in adds],
                accepted="self.symbol_table.get_sym_id_map() after all add_symbols calls")
-        arg_ok = all(ast.unparse(a.args[0]) in ("local_symbol_tables[rank].get_sym_table()", "local_symbol_table.get_sym_table()") for a in adds)
+        arg_ok = all(ast.unparse(a.args[0]) in acc_lt for a in adds)
         chk.ob("C11.R2-re-encoding", f"{q}: the shared table is fed each rank's local symbols (in the rank's own id order)", arg_ok and bool(adds), where, found=[ast.unparse(a) for a in adds], accepted="self.symbol_table.add_symbols(<local table>.get_sym_table())")
     chk.floor("C11.R2-re-encoding", 8)
 
     # ---------------------------------------------------------------- R3 schedule independence
     f = tm.func("Trace.parse_multiple_ranks")
     where = tm.loc(f)
-    pool_calls = [c for c in ast.walk(f) if isinstance(c, ast.Call) and isinstance(c.func, ast.Attribute) and isinstance(c.func.value, ast.Name) and c.func.value.id == "pool"]
+    pool_vars = {H.name_id(it.optional_vars) for w in ast.walk(f) if isinstance(w, ast.With) for it in w.items if "Pool(" in ast.unparse(it.context_expr) and it.optional_vars is not None}
+    pool_vars |= {H.name_id(t) for t, v, s_ in H.assignments(f) if "Pool(" in ast.unparse(v)}
+    pool_calls = [c for c in ast.walk(f) if isinstance(c, ast.Call) and isinstance(c.func, ast.Attribute) and isinstance(c.func.value, ast.Name) and c.func.value.id in pool_vars
+                  and c.func.attr not in ("close", "join", "terminate")]
     prims = sorted({c.func.attr for c in pool_calls})
     chk.ob("C11.R3-ordered-collection", "worker results are collected with an order-preserving primitive only", prims == ["map"], where, found=prims, accepted=["map"],
            why="imap_unordered / apply_async deliver in completion order: zip(ranks, results) would store one rank's frame, metadata and local table under another rank")
     pm = [c for c in pool_calls if c.func.attr == "map"]
-    tp = [ast.unparse(v).replace(" ", "") for t, v, s in H.assignments(f) if H.name_id(t) == "trace_paths"]
     zips = [c for c in ast.walk(f) if isinstance(c, ast.Call) and H.name_id(c.func) == "zip"]
-    ok = len(pm) == 1 and len(pm[0].args) >= 2 and H.name_id(pm[0].args[1]) == "trace_paths" and tp == ["[self.trace_files[rank]forrankinranks]"] and \
-        any([H.name_id(a) for a in z.args] == ["ranks", "results"] for z in zips)
-    res_def = [ast.unparse(v) for t, v, s in H.assignments(f) if H.name_id(t) == "results"]
+    ok, tp, res_def = False, [], []
+    if len(pm) == 1 and len(pm[0].args) >= 2 and isinstance(pm[0].args[1], ast.Name):
+        paths_var = pm[0].args[1].id
+        tp = [v for t, v, s_ in H.assignments(f) if H.name_id(t) == paths_var]
+        res_vars = [H.name_id(t) for t, v, s_ in H.assignments(f) if v is pm[0]]
+        res_def = [ast.unparse(v) for t, v, s_ in H.assignments(f) if H.name_id(t) in res_vars]
+        ok = len(tp) == 1 and H.match("[self.trace_files[$r] for $r in ranks]", tp[0]) is not None and len(res_vars) == 1 and \
+            any([H.name_id(a) for a in z.args] == ["ranks", res_vars[0]] for z in zips)
+        tp = [ast.unparse(x) for x in tp]
     chk.ob("C11.R3-ordered-collection", "results are paired with the rank list the inputs were built from, in the same order", ok and len(res_def) == 1, where, found={"trace_paths": tp, "results": res_def, "zip": [ast.unparse(z) for z in zips]},
            accepted="trace_paths = [self.trace_files[rank] for rank in ranks]; results = pool.map(_parser, trace_paths, ...); zip(ranks, results)")
     seq = [n for n in ast.walk(f) if isinstance(n, ast.For) and H.name_id(n.iter) == "ranks"]
     chk.ob("C11.R3-ordered-collection", "the sequential branch and the final re-encoding iterate the same rank list", len(seq) >= 2, where, found=len(seq), accepted=">= 2 loops over ranks")
     pt = tm.func("Trace.parse_traces")
-    rk = [ast.unparse(v).replace(" ", "") for t, v, s in H.assignments(pt) if H.name_id(t) == "ranks"]
-    chk.ob("C11.R3-ordered-collection", "ranks are processed in sorted order (the shared table's numbering does not depend on dict order of the file map)", rk == ["sorted(self.trace_files.keys())[:max_ranks]"], tm.loc(pt), found=rk,
+    pcall = [c for c in H.calls(pt) if isinstance(c.func, ast.Attribute) and c.func.attr == "parse_multiple_ranks"]
+    rv = H.name_id(pcall[0].args[0]) if len(pcall) == 1 and pcall[0].args else None
+    rk = [ast.unparse(v).replace(" ", "") for t, v, s in H.assignments(pt) if H.name_id(t) == rv]
+    okrk = len(rk) == 1 and rk[0].startswith("sorted(self.trace_files")
+    chk.ob("C11.R3-ordered-collection", "ranks are processed in sorted order (the shared table's numbering does not depend on dict order of the file map)", okrk, tm.loc(pt), found=rk,
            accepted="sorted(self.trace_files.keys())[:max_ranks]")
 
     # ---------------------------------------------------------------- R4 id opacity
